@@ -25,7 +25,7 @@ import numpy as np
 from hypothesis import strategies as st
 
 from tqv import gen, ref
-from tqv.core import Inconclusive, SubCheck, Violation, req
+from tqv.core import HarnessError, Inconclusive, SubCheck, Violation, req
 
 # caller-owned arrays handed to the library must come back unchanged (see tqv/purity.py)
 from tqv.purity import install as _install_purity  # noqa: E402
@@ -604,6 +604,86 @@ def _nt_extremal(case):
 
 
 # ==========================================================================================
+# P9b: extremal channels whose products A_i^dagger A_j are independent but ill conditioned
+# (added after seeded change C06-c1 was missed: the rank test moved to the Gram matrix of the products with the same
+# absolute tolerance, which squares the singular values - every generated extremal channel had sigma_min >= 1e-4)
+# ==========================================================================================
+@st.composite
+def _extremal_ill_case(draw):
+    return {
+        "kind": draw(st.sampled_from(["ampdamp", "ampdamp", "weak"])),
+        "d": draw(st.integers(2, 4)),
+        "r": draw(st.integers(2, 3)),
+        "k": draw(st.sampled_from([2, 3, 4, 5, 6])),  # gamma = 10^-k (ampdamp) / coupling 10^-(k/2) (weak)
+        "real": draw(st.booleans()),
+        "rot": draw(st.booleans()),
+        "seed": draw(gen.SEED),
+    }
+
+
+def _extremal_ill_kraus(case):
+    d, real = int(case["d"]), bool(case["real"])
+    g = gen.rng(case["seed"])
+    if case["kind"] == "ampdamp":
+        gamma = 10.0 ** (-int(case["k"]))
+        k0 = np.eye(d)
+        k0[d - 1, d - 1] = math.sqrt(1 - gamma)
+        k1 = np.zeros((d, d))
+        k1[0, d - 1] = math.sqrt(gamma)
+        ks = [k0, k1]
+    else:
+        # weakly coupled Stinespring isometry: exp(i eps G) restricted to the environment state |0>
+        r = min(int(case["r"]), d)
+        eps = 10.0 ** (-int(case["k"]) / 2.0)
+        import scipy.linalg
+
+        h = _gauss(g, d * r, d * r, real)
+        gen_ = (h - h.T) / 2 if real else 1j * (h + h.conj().T) / 2  # antisymmetric / anti-Hermitian generator
+        gen_ = gen_ / np.linalg.norm(gen_, 2)
+        u = scipy.linalg.expm(eps * gen_)
+        # u acts on environment (x) system, environment index major; the isometry is u on environment state |0>
+        iso = u.reshape(r, d, r, d)[:, :, 0, :].reshape(r * d, d)
+        ks = [iso[i * d : (i + 1) * d, :].copy() for i in range(r)]
+    if case["rot"]:
+        ua = gen.rand_unitary(int(g.integers(0, 2**62)), d, real)
+        ub = gen.rand_unitary(int(g.integers(0, 2**62)), d, real)
+        ks = [ua @ k @ ub for k in ks]
+    return ks
+
+
+def check_extremal_ill(case):
+    from toqito.channel_props import is_extremal
+
+    ks = _extremal_ill_kraus(case)
+    d = int(case["d"])
+    tp_dev = float(np.max(np.abs(sum(k.conj().T @ k for k in ks) - np.eye(d))))
+    if tp_dev > 1e-12:
+        raise HarnessError(f"ill-conditioned extremal builder is not trace preserving ({tp_dev:.2e})")
+    mm = np.stack([(a.conj().T @ b).reshape(-1) for a in ks for b in ks], axis=1)
+    sv = np.linalg.svd(mm, compute_uv=False)
+    smin = float(sv[-1])
+    if smin < 1e-7:  # less than 100 x the rank tolerance (1e-9) of is_extremal: not asserted
+        raise Inconclusive("sigma_min within 100x of the rank tolerance")
+    real = bool(case["real"])
+    reps = [("flat", [_maybe_real(k, real) for k in ks]), ("nested", [[_maybe_real(k, real)] for k in ks])]
+    j = ref.choi_of_pairs([(k, k) for k in ks], d)
+    if float(np.linalg.eigvalsh((j + j.conj().T) / 2)[-len(ks)]) >= 1e-7:  # every Kraus direction far above choi_to_kraus' 1e-9
+        reps.append(("choi", _maybe_real(j, real)))
+    for name, obj in reps:
+        got = is_extremal(obj)
+        req(
+            isinstance(got, (bool, np.bool_)) and bool(got) is True,
+            f"is_extremal({name}) returned {got!r} for a {case['kind']} channel on M_{d} with {len(ks)} Kraus operators whose products "
+            f"A_i^dagger A_j are linearly independent: smallest singular value {smin:.3g} (largest {sv[0]:.3g}), rank tolerance 1e-9",
+            "is_extremal:ill-conditioned-independent-family",
+        )
+
+
+def _nt_extremal_ill(case):
+    return f"{case['kind']},k={case['k']}" if int(case["k"]) >= 4 else None
+
+
+# ==========================================================================================
 # constructors
 # ==========================================================================================
 def _param(draw, lo, hi, extra=()):
@@ -999,6 +1079,7 @@ SUBCHECKS = [
     SubCheck("channel_rect_kraus", check_channel_rect_kraus, lambda: _map_case(fams=("stinespring", "unital_dual", "cp_generic", "hp_not_cp", "non_hp"), dims="rect"), _label, quick=2500, thorough=40000, shards=3),
     SubCheck("choi_rank", check_choi_rank, lambda: _map_case(), _label, quick=5000, thorough=80000, shards=4),
     SubCheck("extremal", check_extremal, lambda: _map_case(fams=_CHANNELISH, perts=("unital",)), _nt_extremal, quick=5000, thorough=80000, shards=4, fuzz=4000),
+    SubCheck("extremal_ill_conditioned", check_extremal_ill, _extremal_ill_case, _nt_extremal_ill, quick=2000, thorough=30000, shards=4),
     SubCheck("depolarizing_dephasing", check_dep, _dep_case, _nt_dep, quick=5000, thorough=80000, shards=4),
     SubCheck("qubit_noise", check_qubit, _qubit_case, _nt_qubit, quick=6000, thorough=100000, shards=4),
     SubCheck("pauli_channel", check_pauli, _pauli_case, _nt_pauli, quick=3000, thorough=50000, shards=4),
